@@ -227,7 +227,7 @@ def check_compaction_drop(ctx):
     dw = ctx.fn("ldb_do_compaction_work", DB)
     g = xgraph(P, dw)
     drops = [(b, i, e) for (b, i, e) in dw.events("asg") if key(e["lhs"]) == "drop" and const_val(e["rhs"]) != 0]
-    ctx.require(len(drops) == 2, "ldb_do_compaction_work: expected two drop sites, found %d" % len(drops))
+    ctx.require(len(drops) >= 2, "ldb_do_compaction_work: expected the two drop sites, found %d" % len(drops))
     SS = "state->smallest_snapshot"
     for b, i, e in drops:
         atoms = g.must_at(b, i)
